@@ -186,6 +186,21 @@ class RealAcc:
         return (self.p[k]["sids"][i],) + tuple(self.p[k]["tids"][i])
 
 
+# ---- leftovers of the source link: Screen.concat, Screen.single_treatment_effects (Proofs/C14SourceLeftovers.v) ----
+THEOREMS.update({
+    "C14_model_is_source_screen_concat": "the translation of the whole classmethod Screen.concat (two length tests, screens[0], the loop `result = result.combine(screen)` over screens[1:] through the translated Screen.combine) equals for ALL lists of Screen objects: Err for the empty list, the SAME object for one screen, otherwise a new object holding the model's left fold of screen_combine (screen_concat_from)",
+    "C14_model_is_source_screen_concat_contents": "on the contents, whatever the object identities, the translated Screen.concat is the model's screen_concat",
+    "C14_model_is_source_screen_single_treatment_effects": "the translation of the whole property Screen.single_treatment_effects (try: return create_single_treatment_effect_array(sample_ids=, treatment_ids=, observation=) except KeyError: return None) equals the model's screen_single_effects for ANY effect-array function and KeyError tag: Some array, None exactly when the construction raises KeyError, every other exception passes",
+    "C14_source_view_single_treatment_effects_of_parent": "consistency with C14_model_is_source_single_treatment_effects (which took the parent's property as a primitive value): with the translated Screen property in its place, a view's single_treatment_effects is the row selection of the parent's array, None propagates",
+})
+ASSUMPTIONS += [
+    "source links of Screen.concat / Screen.single_treatment_effects (harness/src_functions.py L10B_SCREEN_CONCAT / L10B_SCREEN_STE): trusted are the translator (extended by `try: B except E: H` with returning parts = PyRt.res_catch on a declared exception tag) and the primitives len(l), l[0] = PyRt.list_get, l[1:] = tl, a.combine(b) = the TRANSLATED Screen.combine whose result is a new object of identity new_tag (a parameter: the link holds for every value; identities are never tested in concat), self.sample_ids / treatment_ids / observations = the stored columns of the Screen (the C14 attribute primitives), create_single_treatment_effect_array(sample_ids=, treatment_ids=, observation=) = a PARAMETER effect_array (its own source link is C20's, in the Synergy vocabulary) whose KeyError carries the parameter tag key_error and no other exception does, logger.warning ignored",
+]
+EXPLANATION += ("  LEFTOVERS: Screen.concat and Screen.single_treatment_effects are re-translated as whole functions as well (Generated/SrcPlates.v) and linked "
+                "to screen_concat / screen_single_effects at the end of Model/Views.v (C14_model_is_source_screen_concat*, _screen_single_treatment_effects); "
+                "trusted: the translator and the primitives named in ASSUMPTIONS (len, l[0], l[1:], dispatch of .combine to the translated Screen.combine with a "
+                "fresh identity, the three column attributes, the effect-array function and its KeyError tag as parameters).")
+
 def ref_eval(tree, acc):
     """(parent index, ascending list of selected parent row indices); RefError where the API must refuse"""
     op = tree[0]
